@@ -29,16 +29,16 @@ def product : List (List Nat) → List (List Nat)
 /-- `min(l)` / `max(l)`; the empty case (a Python `ValueError`) is excluded by `Op.wf`. -/
 def minL : List Nat → Nat
   | [] => 0
-  | x :: xs => xs.foldl Nat.min x
+  | x :: xs => xs.foldl min x
 def maxL : List Nat → Nat
   | [] => 0
-  | x :: xs => xs.foldl Nat.max x
+  | x :: xs => xs.foldl max x
 
 /-- `PaddingOperator._pad`:  `((x + r - 1) // r) * r` -/
 def padTo (r x : Nat) : Nat := ((x + r - 1) / r) * r
 
 /-- `min(k, divisor + k % divisor)` -/
-def equivK (k d : Nat) : Nat := Nat.min k (d + k % d)
+def equivK (k d : Nat) : Nat := min k (d + k % d)
 
 inductive Op where
   | leaf (vs : List Nat)
@@ -78,7 +78,7 @@ def sumMin : List Op → Nat
 def minMin : List Op → Nat
   | [] => 0
   | [c] => c.min
-  | c :: cs => Nat.min c.min (minMin cs)
+  | c :: cs => min c.min (minMin cs)
 end
 
 mutual
@@ -94,7 +94,7 @@ def sumMax : List Op → Nat
   | c :: cs => c.max + sumMax cs
 def maxMax : List Op → Nat
   | [] => 0
-  | c :: cs => Nat.max c.max (maxMax cs)
+  | c :: cs => max c.max (maxMax cs)
 end
 
 /-- sums of `combinations_with_replacement(s, k)` reduced modulo `d`, as a set -/
